@@ -7,6 +7,9 @@ all lengths, both polarisation layouts, with or without noise; hypotheses are th
 (`ER_dB ≥ 0`, `loss_dB ≥ 0`, `Vpi ≠ 0`) and the shape invariant of `optical_signal` (`Field.WF`).
 -/
 import OptiVerif.Lemmas.Modulators
+import OptiVerif.Lemmas.ModulatorsSpectrum
+import OptiVerif.Lemmas.ModulatorsFilter
+import OptiVerif.Props.C11
 
 set_option linter.unusedVariables false
 set_option linter.unnecessarySeqFocus false
@@ -339,6 +342,141 @@ theorem mzm_error_iff (pol : PolSel) (bias Vpi ld er : ℝ) (d : Drive ℝ) (x :
     · exact absurd h h1
     · exact absurd h h2
 
+/-! ### optional BW: the optical filter of C11 applied to the modulated field -/
+
+/-- with `BW` the result is, by definition, `BPF` (model `Filter.bpf` with the spied sections) of the modulated field;
+    the checks of `MZM` come first -/
+theorem mzm_bw_is_bpf_after_mzm (pol : PolSel) (bias Vpi ld er : ℝ) (d : Drive ℝ) (secs : List (Filter.Sec ℝ)) (e : ℕ)
+    (x : Modulators.Field (Cx ℝ)) :
+    mzmBW pol bias Vpi ld er d secs e x =
+      match mzm pol bias Vpi ld er d x with
+      | .error err => .error err
+      | .ok y => Filter.bpf secs e y.toSig := by
+  unfold mzmBW
+  cases mzm pol bias Vpi ld er d x <;> rfl
+
+/-- signal and noise rows are filtered alike (C11 `filt_rows_bpf`) and **the length is preserved**: every output row is
+    `filtCoreCx secs e` of the corresponding modulated row -/
+theorem mzm_bw_rows (pol : PolSel) (bias Vpi ld er : ℝ) (d : Drive ℝ) (secs : List (Filter.Sec ℝ)) (e : ℕ)
+    (x y : Modulators.Field (Cx ℝ)) (hx : x.WF) (he : e < x.sig.len) (h : mzm pol bias Vpi ld er d x = .ok y) :
+    ∃ o, mzmBW pol bias Vpi ld er d secs e x = .ok o ∧
+      o.rows = y.sig.toList.map (Filter.filtCoreCx secs e) ∧
+      o.noise = y.noise.map (fun r => r.toList.map (Filter.filtCoreCx secs e)) ∧
+      (∀ row ∈ o.rows, row.length = x.sig.len) ∧ ∀ nz, o.noise = some nz → ∀ row ∈ nz, row.length = x.sig.len := by
+  obtain ⟨hlen, hpol, rfl⟩ := mzm_ok_inv h
+  have hl := mzmHs_length bias Vpi ld er x.sig.len d hlen
+  have hok := mzmBW_ok (secs := secs) (bias := bias) (Vpi := Vpi) (ld := ld) (er := er) hpol rfl hx.1
+    (fun r hr => hx.noise_shaped hr) hlen he
+  refine ⟨_, hok, rfl, by cases x.noise <;> rfl, ?_, ?_⟩
+  · intro row hrow
+    obtain ⟨r0, hr0, rfl⟩ := List.mem_map.mp hrow
+    have := mem_toList_length (shaped_mzmRows pol _ x.sig (by rw [hl]; exact hx.1)) r0 hr0
+    rw [Filter.length_filtCoreCx _ _ _ (by rw [this, hl]; exact he), this, hl]
+  · intro nz hnz row hrow
+    simp only [Option.map_eq_some_iff] at hnz
+    obtain ⟨r, hr, rfl⟩ := hnz
+    obtain ⟨r0, hr0, rfl⟩ := List.mem_map.mp hrow
+    have := mem_toList_length (shaped_mzmRows pol _ r (by rw [hl]; exact hx.noise_shaped hr)) r0 hr0
+    rw [Filter.length_filtCoreCx _ _ _ (by rw [this, hl]; exact he), this, hl]
+
+/-- **`MZM(·, u, …, BW)` is linear in the optical field**: for two fields of the same layout (same polarisation count and
+    length, noise on both or on neither) and complex `a`, `b`, the device applied to `a·x₁ + b·x₂` gives
+    `a·MZM(x₁) + b·MZM(x₂)`, rows of signal and of noise alike — the sample-wise product with `h_t` and the blanking are
+    linear (`mzmRows_lin`) and so is the forward-backward filter (C11 `filt_linear_cx`, through `filtCoreCx_lin`) -/
+theorem mzm_bw_linear (pol : PolSel) (hpol : pol ≠ .other) (bias Vpi ld er : ℝ) (d : Drive ℝ)
+    (secs : List (Filter.Sec ℝ)) (e : ℕ) (a b : Cx ℝ) (x1 x2 : Modulators.Field (Cx ℝ)) (hx1 : x1.WF) (hx2 : x2.WF)
+    (hs : RowsRel (fun _ _ => True) x1.sig x2.sig)
+    (hn : match x1.noise, x2.noise with
+      | some n1, some n2 => RowsRel (fun _ _ => True) n1 n2
+      | none, none => True
+      | _, _ => False)
+    (hd : d.samples.length = x1.sig.len ∨ d.samples.length = 1) (he : e < x1.sig.len) :
+    ∃ o1 o2, mzmBW pol bias Vpi ld er d secs e x1 = .ok o1 ∧ mzmBW pol bias Vpi ld er d secs e x2 = .ok o2 ∧
+      mzmBW pol bias Vpi ld er d secs e (Field.lin a b x1 x2) = .ok (sigLin a b o1 o2) := by
+  have s1 := hx1.1
+  have s2 : x2.sig.Shaped x1.sig.len := by
+    have := hx2.1
+    have hl : x2.sig.len = x1.sig.len := by
+      cases h1 : x1.sig <;> cases h2 : x2.sig <;> rw [h1, h2] at hs <;> simp only [RowsRel] at hs
+      · exact hs.length_eq.symm
+      · exact hs.1.length_eq.symm
+    rwa [hl] at this
+  have l2 : x2.sig.len = x1.sig.len := Rows.len_of_shaped s2
+  have hl := mzmHs_length bias Vpi ld er x1.sig.len d hd
+  have n1s : ∀ r, x1.noise = some r → r.Shaped x1.sig.len := fun r hr => hx1.noise_shaped hr
+  have n2s : ∀ r, x2.noise = some r → r.Shaped x1.sig.len := fun r hr => by
+    have := hx2.noise_shaped hr; rwa [l2] at this
+  have sl := shaped_lin a b s1 s2 hs
+  have ok1 := mzmBW_ok (secs := secs) (bias := bias) (Vpi := Vpi) (ld := ld) (er := er) (d := d) hpol rfl s1 n1s hd he
+  have ok2 := mzmBW_ok (secs := secs) (bias := bias) (Vpi := Vpi) (ld := ld) (er := er) (d := d) (x := x2) hpol l2 s2 n2s hd he
+  have ok3 := mzmBW_ok (secs := secs) (bias := bias) (Vpi := Vpi) (ld := ld) (er := er) (d := d)
+    (x := Field.lin a b x1 x2) (n := x1.sig.len) hpol (Rows.len_of_shaped sl) sl
+    (by
+      intro r hr
+      simp only [Field.lin] at hr
+      revert hn hr
+      cases h1 : x1.noise <;> cases h2 : x2.noise <;> simp
+      intro hrel hr
+      rw [← hr]
+      exact shaped_lin a b (n1s _ h1) (n2s _ h2) hrel) hd he
+  refine ⟨_, _, ok1, ok2, ?_⟩
+  rw [ok3]
+  -- rows of the signal part, then of the noise part
+  have key : ∀ r1 r2 : Rows (Cx ℝ), r1.Shaped x1.sig.len → r2.Shaped x1.sig.len → RowsRel (fun _ _ => True) r1 r2 →
+      (mzmRows pol (mzmHs bias Vpi ld er x1.sig.len d) (Rows.lin a b r1 r2)).toList.map (Filter.filtCoreCx secs e)
+        = List.zipWith (Filter.linCx a b)
+            ((mzmRows pol (mzmHs bias Vpi ld er x1.sig.len d) r1).toList.map (Filter.filtCoreCx secs e))
+            ((mzmRows pol (mzmHs bias Vpi ld er x1.sig.len d) r2).toList.map (Filter.filtCoreCx secs e)) := by
+    intro r1 r2 h1 h2 hrel
+    have hrel' := rowsRel_true_mzmRows pol _ r1 r2 _ hl h1 h2 hrel
+    rw [mzmRows_lin pol _ a b r1 r2 hrel, toList_lin a b _ _ hrel',
+      map_filt_zipWith_lin secs e a b _ _ (forall₂_len_toList hrel')]
+  simp only [sigLin, Field.lin]
+  congr 2
+  · exact key _ _ s1 s2 hs
+  · cases h1 : x1.noise with
+    | none =>
+      cases h2 : x2.noise with
+      | none => rfl
+      | some n2 => rw [h1, h2] at hn; exact hn.elim
+    | some n1 =>
+      cases h2 : x2.noise with
+      | none => rw [h1, h2] at hn; exact hn.elim
+      | some n2 =>
+        rw [h1, h2] at hn
+        simp only [Option.map_some]
+        exact congrArg some (key _ _ (n1s _ h1) (n2s _ h2) hn)
+
+/-- a field not longer than the filter's padding is rejected with `ValueError` (scipy's `sosfiltfilt` length check) -/
+theorem mzm_bw_short (pol : PolSel) (bias Vpi ld er : ℝ) (d : Drive ℝ) (secs : List (Filter.Sec ℝ)) (e : ℕ)
+    (x y : Modulators.Field (Cx ℝ)) (hx : x.WF) (he : x.sig.len ≤ e) (h : mzm pol bias Vpi ld er d x = .ok y) :
+    mzmBW pol bias Vpi ld er d secs e x = .error .ValueError := by
+  obtain ⟨hlen, hpol, rfl⟩ := mzm_ok_inv h
+  have hl := mzmHs_length bias Vpi ld er x.sig.len d hlen
+  have hsh := shaped_mzmRows pol _ x.sig (by rw [hl]; exact hx.1)
+  rw [mzm_bw_is_bpf_after_mzm, h]
+  simp only [Filter.bpf, Filter.applyRows, Field.toSig]
+  revert hsh
+  cases mzmRows pol (mzmHs bias Vpi ld er x.sig.len d) x.sig <;>
+    simp only [Rows.Shaped, Rows.toList, Filter.mapE, Filter.filtfiltCx] <;> intro hsh
+  · simp [hsh, hl, he]
+  · simp [hsh.1, hl, he]
+
+/-- non-vacuity of `mzm_bw_linear` / `mzm_bw_rows`: two-polarisation noisy fields of 3 samples, one section, padding 1 -/
+example : ∃ o1 o2, mzmBW (R := ℝ) .x 0 5 0 26 (.scalar 1) [⟨1, 0, 0, 0, 0, 0, 0⟩] 1
+      ⟨.two [⟨1, 0⟩, ⟨0, 1⟩, ⟨2, 2⟩] [⟨0, 0⟩, ⟨1, 1⟩, ⟨3, 0⟩], some (.two [⟨1, 1⟩, ⟨0, 0⟩, ⟨1, 0⟩] [⟨0, 1⟩, ⟨0, 1⟩, ⟨0, 1⟩])⟩ = .ok o1 ∧
+    mzmBW (R := ℝ) .x 0 5 0 26 (.scalar 1) [⟨1, 0, 0, 0, 0, 0, 0⟩] 1
+      ⟨.two [⟨0, 0⟩, ⟨5, 1⟩, ⟨1, 2⟩] [⟨1, 0⟩, ⟨1, 0⟩, ⟨0, 0⟩], some (.two [⟨2, 1⟩, ⟨0, 3⟩, ⟨1, 0⟩] [⟨0, 0⟩, ⟨0, 1⟩, ⟨1, 1⟩])⟩ = .ok o2 ∧
+    mzmBW (R := ℝ) .x 0 5 0 26 (.scalar 1) [⟨1, 0, 0, 0, 0, 0, 0⟩] 1
+      (Field.lin ⟨2, 1⟩ ⟨0, -1⟩
+        ⟨.two [⟨1, 0⟩, ⟨0, 1⟩, ⟨2, 2⟩] [⟨0, 0⟩, ⟨1, 1⟩, ⟨3, 0⟩], some (.two [⟨1, 1⟩, ⟨0, 0⟩, ⟨1, 0⟩] [⟨0, 1⟩, ⟨0, 1⟩, ⟨0, 1⟩])⟩
+        ⟨.two [⟨0, 0⟩, ⟨5, 1⟩, ⟨1, 2⟩] [⟨1, 0⟩, ⟨1, 0⟩, ⟨0, 0⟩], some (.two [⟨2, 1⟩, ⟨0, 3⟩, ⟨1, 0⟩] [⟨0, 0⟩, ⟨0, 1⟩, ⟨1, 1⟩])⟩)
+      = .ok (sigLin ⟨2, 1⟩ ⟨0, -1⟩ o1 o2) :=
+  mzm_bw_linear .x (by decide) 0 5 0 26 (.scalar 1) _ 1 _ _ _ _
+    ⟨⟨rfl, rfl⟩, by intro r hr; cases hr; exact ⟨by simp, by simp⟩⟩
+    ⟨⟨rfl, rfl⟩, by intro r hr; cases hr; exact ⟨by simp, by simp⟩⟩
+    ⟨by simp, by simp⟩ ⟨by simp, by simp⟩ (Or.inr rfl) (by decide)
+
 /-! ### PM: a pure rotation of the total field -/
 
 /-- the rotation factor is `exp(j·π·u/Vπ)` -/
@@ -473,6 +611,41 @@ theorem laser_power_rin (p fs : ℝ) (phase : Option (List ℝ)) (r : List ℝ) 
   obtain ⟨l2, _, hge, f2⟩ := laserStage2_ok h2 l1 _ (p1 _ (laser_e0 p t))
   obtain ⟨_, _, f3⟩ := laserStage3_ok h3 l2
   exact ⟨hge, f3 r (fun v => (10 : ℝ) ^ (p / 10 - 3) * (1 + v)) f2⟩
+
+/-- **spectral peak at df** (composition with the Fourier model of C02): a LASER without phase noise and without RIN, sampled on
+    `t_j = j/fs` (`j < n`) with an on-grid offset `df = k0·fs/n` (`k0` an integer of either sign inside Nyquist), is accepted and
+    its DFT (`Fourier.dftAt`, the definition numpy's `fft` is trusted to compute) has `|X_k|² = n²·P` in the single bin
+    `k ≡ k0 (mod n)` — bin `k0` for `k0 ≥ 0`, bin `n + k0` for `k0 < 0`, i.e. frequency `df` in `fftfreq` order — and is
+    exactly zero in every other bin.  Off-grid offsets and phase noise stay with the oracle (leakage / random walk). -/
+theorem laser_spectral_peak (p fs : ℝ) (hfs : 0 < fs) (n : ℕ) (k0 : ℤ) (hk0 : 2 * |k0| < (n : ℤ)) :
+    ∃ E, laser p none none (some ((k0 : ℝ) * fs / n)) fs (timeGrid n fs) = .ok E ∧ E.length = n ∧
+      ∀ k, k < n → (Fourier.dftAt (Fourier.nth E) n k).normSq =
+        if (k : ℤ) = k0 % (n : ℤ) then (n : ℝ) ^ 2 * (10 : ℝ) ^ (p / 10 - 3) else 0 := by
+  have hn : (0 : ℝ) < n := by
+    have : (0 : ℤ) < n := lt_of_le_of_lt (by positivity) hk0
+    exact_mod_cast this
+  have hny : |(k0 : ℝ) * fs / n| ≤ fs / 2 := by
+    have h1 : (2 * |(k0 : ℝ)| : ℝ) < n := by
+      have := hk0
+      have h2 : ((2 * |k0| : ℤ) : ℝ) < ((n : ℤ) : ℝ) := by exact_mod_cast this
+      simpa using h2
+    rw [abs_div, abs_mul, abs_of_pos hfs, abs_of_pos hn, div_le_div_iff₀ hn (by norm_num)]
+    nlinarith [abs_nonneg (k0 : ℝ)]
+  refine ⟨_, laser_cw_eq p fs _ _ hny, by simp [timeGrid], ?_⟩
+  intro k hk
+  rw [Cx.toC_normSq, laser_cw_dft p fs hfs n k0 k hk]
+  have hamp : (Gen.OptDev.laserAmp p : ℝ) * Gen.OptDev.laserAmp p = (10 : ℝ) ^ (p / 10 - 3) := by
+    simp only [Gen.OptDev.laserAmp, Transc.sqrt_real]
+    rw [Real.mul_self_sqrt (idbm_pos p).le, idbm_real]
+  split
+  · rw [Complex.normSq_mul, Complex.normSq_ofReal, Complex.normSq_natCast, hamp]; ring
+  · simp
+
+/-- non-vacuity: 8 samples, offset −3 bins: the peak sits in bin 5 -/
+example : ∃ E, laser (R := ℝ) 0 none none (some (((-3 : ℤ) : ℝ) * 16 / (8 : ℕ))) 16 (timeGrid 8 16) = .ok E ∧ E.length = 8 ∧
+    ∀ k, k < 8 → (Fourier.dftAt (Fourier.nth E) 8 k).normSq =
+      if (k : ℤ) = (-3) % ((8 : ℕ) : ℤ) then ((8 : ℕ) : ℝ) ^ 2 * (10 : ℝ) ^ ((0 : ℝ) / 10 - 3) else 0 :=
+  laser_spectral_peak 0 16 (by norm_num) 8 (-3) (by decide)
 
 /-- an offset beyond Nyquist is rejected with `ValueError`; inside Nyquist (no RIN) the call succeeds -/
 theorem laser_nyquist (p fs f : ℝ) (phase : Option (List ℝ)) (t : List ℝ)
